@@ -62,6 +62,8 @@ def indexOfFrom (b d : Bytes) (frm : Int) : Int :=
 def count (l : List Bytes) : Int := l.length
 /-- `l[i]` / `l.at(i)` for an index the code has checked to be in range -/
 def nth (l : List Bytes) (i : Int) : Bytes := l.getD i.toNat []
+/-- `last()` on a non-empty list -/
+def last (l : List Bytes) : Bytes := l.getLastD []
 /-- `takeFirst()` on a non-empty list -/
 def takeFirst (l : List Bytes) : Bytes × List Bytes := (l.headD [], l.tail)
 
